@@ -729,6 +729,22 @@ def c11(ctx):
         v = gotypes.fill(r["V"], rnd, n)
         for via in vias:
             cases.append(case("C11", "gort", "go", sub=dict(T=r["T"], V=v, via=via), origin="GenGoType"))
+    # deep generic data below interface{} (the unfolder's scratch buffers grow with the nesting depth)
+    def deep(d, kind):
+        leaf = dict(k="iface", dyn=[dict(k="int")], e=[dict(k="int", ty="int", v=streams.canon(d))])
+        x = leaf
+        for j in range(d):
+            if kind == "map" or (kind == "mix" and j % 2):
+                x = dict(k="iface", dyn=[dict(k="map", e=[dict(k="iface")])], e=[dict(k="map", m=[dict(key=list(b"k%d" % j), val=x)])])
+            else:
+                x = dict(k="iface", dyn=[dict(k="slice", e=[dict(k="iface")])], e=[dict(k="slice", e=[x])])
+        return x
+    for d in range(1, 10):
+        for kind in ("map", "slice", "mix"):
+            for via in ("direct", "json", "ubjson", "cborl"):
+                cases.append(case("C11", "gort", "go", sub=dict(T=dict(k="iface"), V=deep(d, kind), via=via), origin="deep %s %d" % (kind, d)))
+                ST = dict(k="struct", f=[dict(name="I", tname="", opts=[], t=dict(k="iface")), dict(name="N", tname="", opts=[], t=dict(k="int"))])
+                cases.append(case("C11", "gort", "go", sub=dict(T=ST, V=dict(k="struct", f=[deep(d, kind), dict(k="int", ty="int", v=streams.canon(3))]), via=via), origin="deep %s %d in field" % (kind, d)))
     # self-referential types (hand-written registry)
     for tid, val in (("RecNode", dict(k="struct", f=[dict(k="int", ty="int", v=streams.canon(1)), dict(k="ptr", nil=True)])),
                      ("RecTree", dict(k="struct", f=[dict(k="str", ty="string", v=list(b"r")), dict(k="slice", nil=True), dict(k="map", nil=True)]))):
